@@ -167,6 +167,21 @@ func runRegHistory(t testing.TB, ops []string) string {
 			}
 			windows[id] = &vRegWindow{done: ctx.Done(), h2: h2}
 			out = append(out, "window["+strings.Join(h.takeEvents(), ",")+"]")
+		case "sw": // stop window: the actor is busy (held) and a non-graceful Stop has been requested but not yet handled
+			pid := e.Registry.GetPID("k", id)
+			if pid == nil || windows[id] != nil {
+				out = append(out, "skip")
+				break
+			}
+			h1 := vRegHold{make(chan struct{}, 1), make(chan struct{})}
+			e.Send(pid, h1)
+			if !waitAck(h1) {
+				out = append(out, "NOHOLD")
+				break
+			}
+			ctx := e.Stop(pid)
+			windows[id] = &vRegWindow{done: ctx.Done(), h2: h1}
+			out = append(out, "window["+strings.Join(h.takeEvents(), ",")+"]")
 		case "rl":
 			w := windows[id]
 			if w == nil {
@@ -227,7 +242,7 @@ func TestVerifReg(t *testing.T) {
 	}
 	r := vgen.NewRng(vgen.Seed())
 	n := vgen.Scale(400, 6000)
-	kinds := []string{"sp", "sp", "sp", "st", "po", "gp", "gp", "sd", "sd", "pw", "rl"}
+	kinds := []string{"sp", "sp", "sp", "st", "po", "gp", "gp", "sd", "sd", "pw", "sw", "rl"}
 	ids := []string{"a", "b", "c"}
 	for i := 0; i < n; i++ {
 		rr := r.Fork()
@@ -237,10 +252,10 @@ func TestVerifReg(t *testing.T) {
 		inWindow := map[string]bool{}
 		for j := 0; j < k; j++ {
 			kind, id := vgen.Pick(rr, kinds), ids[rr.Intn(nid)]
-			if inWindow[id] && (kind == "st" || kind == "po" || kind == "sd" || kind == "pw") {
+			if inWindow[id] && (kind == "st" || kind == "po" || kind == "sd" || kind == "pw" || kind == "sw") {
 				kind = vgen.Pick(rr, []string{"sp", "gp", "rl"}) // a second pill or a send into a draining actor is C07/C04 territory
 			}
-			if kind == "pw" {
+			if kind == "pw" || kind == "sw" {
 				inWindow[id] = true
 			}
 			if kind == "rl" {
